@@ -10,7 +10,7 @@ from vlib import Inconclusive
 
 META = {
     'category': 'fault_enumeration',
-    'technique': 'TLA+ Codec.tla (batch-granular stream model: RoundTrip and Detects clauses) judges recorded encode/decode round trips over swept batch and destination sizes and recorded outcomes of exhaustive single-bit flips, all truncation points and random bursts applied to the real encoded bytes',
+    'technique': 'TLA+ Codec.tla (batch-granular stream model: RoundTrip and Detects clauses) judges recorded encode/decode round trips over swept batch and destination sizes and recorded outcomes of exhaustive single-bit flips, all truncation points and random bursts applied to the real encoded bytes; column types include maps and arrays of structs (gob decodes them in place), destinations are reused across reads or kept and re-verified when the stream has ended',
     'level_text': 'fault enumeration judged by a TLA+ model: streams over column type sets (ints, floats, strings, byte slices, gob-encoded structs), batch-size sequences including empty batches and destination-size sequences (buffered and direct decode paths) are written with the real Encoder and read back; for small streams EVERY single-bit flip and EVERY truncation point is applied to the real bytes (plus random multi-byte bursts on larger ones), the offset is mapped to the batch it lies in from the recorded batch boundaries, and TLC checks: error (no clean EOF, no panic), delivered rows are a correct prefix that stops before the damaged batch',
     'level_note': 'coverage-guided fuzzing named in the quantifier is replaced by exhaustive single-fault damage of small streams; memory-safety of gob decoding into frame memory is outside this technique; map- and array-typed columns are in the universe (gob decodes them in place), custom frame codecs are not yet',
 }
